@@ -222,7 +222,7 @@ Theorem sound_filter_parms :
   forall d, filters_doc_ok d = true ->
   forall o sd boff len, In o (d_objects d) -> o_body o = BStream sd boff len ->
     match dict_get n_Filter sd, dict_get n_DecodeParms sd with
-    | None, None => True
+    | None, _ => True
     | Some (OName _), None => True
     | Some (OName _), Some (ODict _) => True
     | Some (OArr names), None => forallb is_name names = true
